@@ -665,6 +665,8 @@ pub struct Runner {
 	/// O's told chain as (hash, height, relevant txids)
 	mirror: Vec<(BlockHash, u32, Vec<Txid>)>,
 	relevant: HashSet<Txid>,
+	rel_txs: HashMap<Txid, Transaction>,
+	max_height_told: u32,
 	know: BTreeSet<String>,
 	was_buried: HashSet<Txid>,
 	bcast_cur: usize,
@@ -732,6 +734,8 @@ impl Runner {
 			out: RunOut::default(),
 			mirror: vec![],
 			relevant: HashSet::new(),
+			rel_txs: HashMap::new(),
+			max_height_told: 0,
 			know: BTreeSet::new(),
 			was_buried: HashSet::new(),
 			bcast_cur: 0,
@@ -823,6 +827,7 @@ impl Runner {
 			self.bcast_cur += 1;
 			if self.is_relevant(&tx) {
 				self.relevant.insert(tx.compute_txid());
+				self.rel_txs.insert(tx.compute_txid(), tx);
 			}
 		}
 	}
@@ -897,6 +902,7 @@ impl Runner {
 					if self.is_relevant(tx) {
 						let id = tx.compute_txid();
 						self.relevant.insert(id);
+						self.rel_txs.insert(id, tx.clone());
 						rel.push(id);
 						for i in tx.input.iter() {
 							if let Some(c) = self.obs.funding_rev.get(&i.previous_output) {
@@ -916,6 +922,7 @@ impl Runner {
 					}
 				}
 				self.mirror.push((b.block_hash(), h, rel));
+				self.max_height_told = self.max_height_told.max(h);
 				// channel transactions that now have ANTI_REORG_DELAY confirmations on the chain O was told
 				if h + 1 >= ANTI_REORG_DELAY {
 					let deep = h + 1 - ANTI_REORG_DELAY;
@@ -1350,10 +1357,17 @@ impl Runner {
 		self.sim.drain(o);
 		self.pump_o()?;
 		let mut set: BTreeSet<String> = BTreeSet::new();
+		let wallet_script = lightning::util::wallet_utils::WalletSourceSync::get_change_script(&*self.sim.w.nodes[o].wallet_source).unwrap();
 		for tx in self.sim.broadcasts[o][before..].iter() {
 			for i in tx.input.iter() {
-				if self.obs.funding_rev.contains_key(&i.previous_output) || self.relevant.contains(&i.previous_output.txid) {
-					set.insert(format!("{}:{}", i.previous_output.txid, i.previous_output.vout));
+				let op = i.previous_output;
+				// fee inputs taken from the node's own wallet (change of an earlier bump) are not claims
+				let wallet_input = self.rel_txs.get(&op.txid).and_then(|t| t.output.get(op.vout as usize)).map(|o| o.script_pubkey == wallet_script).unwrap_or(false);
+				if wallet_input {
+					continue;
+				}
+				if self.obs.funding_rev.contains_key(&op) || self.relevant.contains(&op.txid) {
+					set.insert(format!("{}:{}", op.txid, op.vout));
 				}
 			}
 		}
@@ -1413,6 +1427,13 @@ impl Runner {
 		peers.sort();
 		s.peers = peers;
 		s.know = self.know.iter().cloned().collect();
+		if self.max_height_told > tip.1 {
+			// conclusions LDK draws from the height alone (an HTLC about to expire upstream is failed back, a
+			// channel with an expired HTLC is closed, a CSV-delayed output matures) are not undone when the tip moves
+			// back; a replica that was told a higher block knows more than the current best chain says
+			s.know.push(format!("told-height {}", self.max_height_told));
+			self.out.labels.insert("tip-below-highest-told-height".into());
+		}
 		s.burial_reorg = self.unburied_now();
 		if s.burial_reorg {
 			self.out.labels.insert("reorg-unburies-buried-tx".into());
